@@ -118,6 +118,7 @@ package swamp
 //@   property C07
 //@   nopanic
 //@   modifies *
+//@   ensures[index_fields_kept] s.beaconKey == old(s.beaconKey) && s.keyBeaconASC == old(s.keyBeaconASC) && s.keyBeaconDESC == old(s.keyBeaconDESC) && s.creationTimeBeaconASC == old(s.creationTimeBeaconASC) && s.creationTimeBeaconDESC == old(s.creationTimeBeaconDESC) && s.updateTimeBeaconASC == old(s.updateTimeBeaconASC) && s.updateTimeBeaconDESC == old(s.updateTimeBeaconDESC) && s.expirationTimeBeaconASC == old(s.expirationTimeBeaconASC) && s.expirationTimeBeaconDESC == old(s.expirationTimeBeaconDESC) && s.valueBeaconASC == old(s.valueBeaconASC) && s.valueBeaconDESC == old(s.valueBeaconDESC)
 //@   loop 0 invariant[only_with_attribute] forall k in keys(filtered): has(all, k) && filtered[k] == all[k] && U_treasure_created(filtered[k]) != 0
 //@   loop 0 invariant[all_with_attribute] forall k in keys(all): visited(k) && U_treasure_created(all[k]) != 0 ==> has(filtered, k)
 //@   loop 1 invariant[only_with_attribute] forall k in keys(filtered): has(all, k) && filtered[k] == all[k] && U_treasure_modified(filtered[k]) != 0
@@ -131,6 +132,7 @@ package swamp
 //@   property C07
 //@   requires[indexes] beaconASC != nil && beaconDESC != nil && ipay(beaconASC) != ipay(beaconDESC)
 //@   modifies *
+//@   ensures[index_fields_kept] s.beaconKey == old(s.beaconKey) && s.keyBeaconASC == old(s.keyBeaconASC) && s.keyBeaconDESC == old(s.keyBeaconDESC) && s.creationTimeBeaconASC == old(s.creationTimeBeaconASC) && s.creationTimeBeaconDESC == old(s.creationTimeBeaconDESC) && s.updateTimeBeaconASC == old(s.updateTimeBeaconASC) && s.updateTimeBeaconDESC == old(s.updateTimeBeaconDESC) && s.expirationTimeBeaconASC == old(s.expirationTimeBeaconASC) && s.expirationTimeBeaconDESC == old(s.expirationTimeBeaconDESC) && s.valueBeaconASC == old(s.valueBeaconASC) && s.valueBeaconDESC == old(s.valueBeaconDESC)
 //@   ensures[asc_CreationTime] !old(icall("IsInitialized", beaconASC)) && bc == BeaconTypeCreationTime ==> calls("Beacon.SortByCreationTimeAsc") == old(calls("Beacon.SortByCreationTimeAsc")) + 1 && calledwith("Beacon.SortByCreationTimeAsc", 0, beaconASC)
 //@   ensures[desc_CreationTime] !old(icall("IsInitialized", beaconDESC)) && bc == BeaconTypeCreationTime ==> calls("Beacon.SortByCreationTimeDesc") == old(calls("Beacon.SortByCreationTimeDesc")) + 1 && calledwith("Beacon.SortByCreationTimeDesc", 0, beaconDESC)
 //@   ensures[asc_UpdateTime] !old(icall("IsInitialized", beaconASC)) && bc == BeaconTypeUpdateTime ==> calls("Beacon.SortByUpdateTimeAsc") == old(calls("Beacon.SortByUpdateTimeAsc")) + 1 && calledwith("Beacon.SortByUpdateTimeAsc", 0, beaconASC)
@@ -182,8 +184,6 @@ package swamp
 //@ func (*swamp).sendEventToHydra(s, t, oldT, status)
 //@   opaque
 //@ func (*swamp).sendSwampInfo(s)
-//@   opaque
-//@ func (*swamp).fileWriterHandler(s, all)
 //@   opaque
 //@ trusted func (github.com/hydraide/hydraide/app/core/hydra/swamp/beacon.Beacon).Add(b, t)
 //@ trusted func (github.com/hydraide/hydraide/app/core/hydra/swamp/beacon.Beacon).Delete(b, key)
@@ -258,8 +258,10 @@ package swamp
 //@ func (*swamp).dropAllBuckets(s)
 //@   opaque
 //@ func (*swamp).Close(s)
-//@   property C17
+//@   property C17 C16
 //@   modifies *
+//@   before Chronicler.Close [C16:waiting_records_are_written_before_the_storage_is_closed] calls("swamp.fileWriterHandler") == old(calls("swamp.fileWriterHandler")) + 1 && calledwith("swamp.fileWriterHandler", 1, true)
+//@   before swamp.sendClosedEvent [C16:closed_is_reported_only_after_the_storage_was_closed] s.closing == 1 && (old(s.inMemorySwamp) == 0 ==> calls("Chronicler.Close") == old(calls("Chronicler.Close")) + 1)
 //@   ensures[started_close_reports_closed] old(s.closing) != 1 ==> calls("swamp.sendClosedEvent") == old(calls("swamp.sendClosedEvent")) + 1
 //@   ensures[flushing_close_reports_closed] calls("swamp.fileWriterHandler") > old(calls("swamp.fileWriterHandler")) ==> calls("swamp.sendClosedEvent") == old(calls("swamp.sendClosedEvent")) + 1
 //@   ensures[closed_event_after_buckets_dropped] calls("swamp.sendClosedEvent") > old(calls("swamp.sendClosedEvent")) ==> calls("swamp.dropAllBuckets") == old(calls("swamp.dropAllBuckets")) + 1
@@ -412,6 +414,69 @@ package swamp
 //@   property C16
 //@   modifies *
 //@   before swamp.Close [idle_close_only_without_active_vigils_and_not_while_closing] calls("Vigil.HasActiveVigils") > old(calls("Vigil.HasActiveVigils")) && !lastretb("Vigil.HasActiveVigils") && s.closing == 0 && (s.inMemorySwamp == 1 || s.isFilesystemWritingActive == 0)
+
+// C16, continued: the flush-and-close ordering of Close, the periodic writer, and the three
+// clone-and-delete flows that auto-destroy an emptied swamp.
+//   Close             (persistent swamp) the records still waiting for the writer are handed to the writer
+//                     (fileWriterHandler(true)) BEFORE the storage is closed, and the closed event -- after
+//                     which hydra lets summoners re-open the swamp from its file -- is sent only AFTER the
+//                     storage was closed;
+//   fileWriterHandler every record it takes off the waiting list is handed to the chronicler in the same
+//                     call (a drain without a write would lose acknowledged writes), and a write is
+//                     followed by the durability barrier (Sync);
+//   CloneAndDelete*   the swamp is destroyed only if the key index was counted empty AFTER the deletes of
+//                     this call (lastret of the count is invalidated by every later deleteHandler), and the
+//                     caller's own vigil is released before the drain Destroy waits on.
+//@ trusted func (github.com/hydraide/hydraide/app/core/hydra/swamp/chronicler.Chronicler).DontSendFilePointer(c)
+//@ trusted func (github.com/hydraide/hydraide/app/core/hydra/swamp/chronicler.Chronicler).Write(c, ts)
+//@ trusted func (github.com/hydraide/hydraide/app/core/hydra/swamp/chronicler.Chronicler).Sync(c) (err)
+//@ trusted func (github.com/hydraide/hydraide/app/core/hydra/swamp/chronicler.Chronicler).Close(c) (err)
+//@ trusted func (github.com/hydraide/hydraide/app/core/hydra/swamp/metadata.Metadata).SaveToFile(m)
+//@ trusted func (github.com/hydraide/hydraide/app/core/hydra/swamp/beacon.Beacon).Iterate(b, f, it)
+//@ trusted func (github.com/hydraide/hydraide/app/core/hydra/swamp/beacon.Beacon).ShiftExpired(b, n) (out)
+//@ func (*swamp).startWriteListener$1()
+//@   property C16
+//@   modifies *
+//@   before swamp.fileWriterHandler [periodic_write_only_under_the_close_mutex_and_not_while_closing] held(s.closeWriteMutex) && s.closing != 1 && s.isFilesystemWritingActive != 1 && !arg1
+//@ func (*swamp).GetBeacon(s, beaconType, order) (b)
+//@   property C16 C11
+//@   modifies *
+//@   ensures[index_fields_kept] s.beaconKey == old(s.beaconKey) && s.keyBeaconASC == old(s.keyBeaconASC) && s.keyBeaconDESC == old(s.keyBeaconDESC) && s.creationTimeBeaconASC == old(s.creationTimeBeaconASC) && s.creationTimeBeaconDESC == old(s.creationTimeBeaconDESC) && s.updateTimeBeaconASC == old(s.updateTimeBeaconASC) && s.updateTimeBeaconDESC == old(s.updateTimeBeaconDESC) && s.expirationTimeBeaconASC == old(s.expirationTimeBeaconASC) && s.expirationTimeBeaconDESC == old(s.expirationTimeBeaconDESC) && s.valueBeaconASC == old(s.valueBeaconASC) && s.valueBeaconDESC == old(s.valueBeaconDESC)
+//@   ensures[the_requested_expiry_index] beaconType == BeaconTypeExpirationTime ==> b == ite(order == IndexOrderAsc, old(s.expirationTimeBeaconASC), old(s.expirationTimeBeaconDESC))
+//@   ensures[the_requested_creation_index] beaconType == BeaconTypeCreationTime ==> b == ite(order == IndexOrderAsc, old(s.creationTimeBeaconASC), old(s.creationTimeBeaconDESC))
+//@   ensures[the_requested_update_index] beaconType == BeaconTypeUpdateTime ==> b == ite(order == IndexOrderAsc, old(s.updateTimeBeaconASC), old(s.updateTimeBeaconDESC))
+//@   ensures[the_requested_key_index] beaconType == BeaconTypeKey ==> b == ite(order == IndexOrderAsc, old(s.keyBeaconASC), old(s.keyBeaconDESC))
+//@ func (*swamp).fileWriterHandler(s, isCloseWrite)
+//@   property C16
+//@   overflow: assumed
+//@   modifies s.isFilesystemWritingActive
+//@   before Beacon.Delete [only_the_waiting_list_is_drained] arg0 == old(s.treasuresWaitingForWriter)
+//@   ensures[drained_records_are_handed_to_the_chronicler] calls("Beacon.Delete") > old(calls("Beacon.Delete")) ==> calls("Chronicler.Write") == old(calls("Chronicler.Write")) + 1
+//@   ensures[a_write_is_followed_by_the_durability_barrier] calls("Chronicler.Write") > old(calls("Chronicler.Write")) ==> calls("Chronicler.Sync") == old(calls("Chronicler.Sync")) + 1
+//@   ensures[close_write_is_never_skipped_for_a_running_writer] isCloseWrite && calls("Beacon.Count") > old(calls("Beacon.Count")) && lastret("Beacon.Count") != 0 ==> calls("Chronicler.Write") == old(calls("Chronicler.Write")) + 1
+//@ func (*swamp).CloneAndDeleteMatchingTreasures(s, beaconType, order, howMany, predicate, capPredicate, capMax) (out, capReached, err)
+//@   property C16
+//@   overflow: assumed
+//@   modifies *
+//@   before swamp.Destroy [destroyed_only_if_counted_empty_after_the_deletes] calls("Beacon.Count") > old(calls("Beacon.Count")) && lastret("Beacon.Count") == 0
+//@   before swamp.Destroy [own_vigil_released_before_the_drain] calls("Vigil.CeaseVigil") == old(calls("Vigil.CeaseVigil")) + 1
+//@   ensures[at_most_one_teardown] calls("swamp.Destroy") <= old(calls("swamp.Destroy")) + 1
+//@   ensures[nothing_to_claim_touches_nothing] howMany <= 0 || predicate == nil ==> calls("swamp.deleteHandler") == old(calls("swamp.deleteHandler")) && calls("swamp.Destroy") == old(calls("swamp.Destroy"))
+//@ func (*swamp).CloneAndDeleteExpiredTreasures(s, howMany) (out, err)
+//@   property C16
+//@   overflow: assumed
+//@   modifies *
+//@   before swamp.Destroy [destroyed_only_if_counted_empty_after_the_deletes] calls("Beacon.Count") > old(calls("Beacon.Count")) && lastret("Beacon.Count") == 0
+//@   before swamp.Destroy [own_vigil_released_before_the_drain] calls("Vigil.CeaseVigil") == old(calls("Vigil.CeaseVigil")) + 1
+//@   ensures[at_most_one_teardown] calls("swamp.Destroy") <= old(calls("swamp.Destroy")) + 1
+//@ func (*swamp).CloneAndDeleteTreasuresByKeys(s, keys) (out, err)
+//@   property C16
+//@   overflow: assumed
+//@   modifies *
+//@   before swamp.Destroy [destroyed_only_if_counted_empty_after_the_deletes] calls("Beacon.Count") > old(calls("Beacon.Count")) && lastret("Beacon.Count") == 0
+//@   before swamp.Destroy [own_vigil_released_before_the_drain] calls("Vigil.CeaseVigil") == old(calls("Vigil.CeaseVigil")) + 1
+//@   ensures[at_most_one_teardown] calls("swamp.Destroy") <= old(calls("swamp.Destroy")) + 1
+//@   ensures[no_keys_touches_nothing] len(keys) == 0 ==> calls("swamp.deleteHandler") == old(calls("swamp.deleteHandler")) && calls("swamp.Destroy") == old(calls("swamp.Destroy"))
 
 // ---------------------------------------------------------------------------------------
 // PatchExpired with a cap (property C12): the swamp's cap mutex is held for the whole operation; the room
